@@ -725,6 +725,8 @@ def sym_expm1(x):
 def sym_cexp(z):
     c = ctx()
     m = sym_exp(z.re)
+    if _num_value(z3.simplify(z.im.t)) == 0:
+        return SymComplex(m if isinstance(m, SymReal) else const(m), const(0))
     _count('cis')
     co, si = c.fresh('cos'), c.fresh('sin')
     c.add('axioms', co * co + si * si == 1)
@@ -756,6 +758,28 @@ def sym_cos_deg(a):
         c.add('axioms', z3.Implies(at == b, v == w))
     c.coss.append((at, v))
     return SymReal(v, None if a.shadow is None else math.cos(math.radians(a.shadow)))
+
+
+def sym_sincos(x):
+    """(sin x, cos x) for a symbolic angle in radians: fresh pair with s*s + c*c == 1, functional in x,
+    sin >= 0 on [0, 3.14]"""
+    c = ctx()
+    xt = z3.simplify(x.t)
+    for b, (sv, cv) in getattr(c, 'sincos', []):
+        if b.eq(xt):
+            return SymReal(sv), SymReal(cv)
+    if not hasattr(c, 'sincos'):
+        c.sincos = []
+    _count('sincos')
+    sv, cv = c.fresh('sin'), c.fresh('cos')
+    c.add('axioms', sv * sv + cv * cv == 1)
+    c.add('axioms', z3.Implies(z3.And(xt >= 0, xt <= z3.RatVal(314, 100)), sv >= 0))
+    c.add('axioms', z3.Implies(xt == 0, z3.And(sv == 0, cv == 1)))
+    for b, (s2, c2) in c.sincos:
+        c.add('axioms', z3.Implies(xt == b, z3.And(sv == s2, cv == c2)))
+    c.sincos.append((xt, (sv, cv)))
+    sh = x.shadow
+    return (SymReal(sv, None if sh is None else math.sin(sh)), SymReal(cv, None if sh is None else math.cos(sh)))
 
 
 class _Radians:
@@ -795,37 +819,36 @@ def sym_interp(x, xp, fp, left=None, right=None):
         return np.interp(x, xp, fp, left, right)
     if is_sym(xp):
         raise HarnessError("interp with symbolic nodes")
-    if len(xp) == 0 or np.any(np.diff(xp.astype(float)) <= 0):
-        raise HarnessError("interp model requires strictly increasing xp")
+    if len(xp) == 0 or np.any(np.diff(xp.astype(float)) < 0):
+        raise HarnessError("interp model requires increasing xp")
     _count('interp')
     n = len(xp)
-
-    def val(i):
-        return fp[i]
     lo_v = fp[0] if left is None else left
     hi_v = fp[-1] if right is None else right
     if x < float(xp[0]):
         return _lift_value(lo_v)
     if x > float(xp[-1]):
         return _lift_value(hi_v)
-    # binary search by forks
+    if n == 1:
+        return _lift_value(fp[0])
+    # numpy: j = last index with xp[j] <= x (binary search), value fp[j] if x == xp[j] or j is the last node,
+    # else slope*(x - xp[j]) + fp[j]
     lo, hi = 0, n - 1
+    if x >= float(xp[hi]):
+        return _lift_value(fp[hi])
     while hi - lo > 1:
         mid = (lo + hi) // 2
         if x >= float(xp[mid]):
             lo = mid
         else:
             hi = mid
-    if n == 1:
-        return _lift_value(fp[0])
-    if x == float(xp[hi]):
-        return _lift_value(fp[hi])
+    if x == float(xp[lo]):
+        return _lift_value(fp[lo])
     x0, x1 = float(xp[lo]), float(xp[hi])
     f0, f1 = fp[lo], fp[hi]
     if _isnan(f0) or _isnan(f1):
         return SymNaN
-    slope = (f1 - f0) / (x1 - x0) if not is_sym(f0) else (f1 - f0) / (x1 - x0)
-    # numpy computes slope*(x - x0) + f0
+    slope = (f1 - f0) / (x1 - x0)
     return _lift_value(slope) * (x - x0) + _lift_value(f0)
 
 
